@@ -24,6 +24,7 @@ from __future__ import annotations
 
 import json
 import math
+import os
 import random
 from fractions import Fraction as F
 
@@ -114,6 +115,24 @@ def cfg_tokens(spec):
     raise ValueError(k)
 
 
+def drl_unit(case):
+    return case.get("unit", G)
+
+
+def drl_window_ns(case):
+    """window length in integer ns: `Duration.from_seconds(window_size).nanoseconds`, as the repaired code"""
+    from happysimulator.core.temporal import Duration
+
+    return max(1, Duration.from_seconds(case["window"] * drl_unit(case) / NS).nanoseconds)
+
+
+def drl_float_wid(case, t_ns):
+    """what the unrepaired `_get_window_id` computes: `int(now.to_seconds() // window_size)` in doubles"""
+    from happysimulator.core.temporal import Instant
+
+    return int(Instant(t_ns).to_seconds() // (case["window"] * drl_unit(case) / NS))
+
+
 def inductor_oracle(lines):
     """The Inductor's EWMA gate as an oracle, read off a transcript: one decision per request and per poll
     that found the queue non-empty (did the handler forward?), one wait per scheduled poll event."""
@@ -147,6 +166,14 @@ class C10(core.Property):
     lean_files = ["HappyModel/C10/*.lean", "HappyProofs/C10/*.lean", "HappyModel/Proto.lean", "Driver/C10.lean"]
     theorems = []
     quick_cases = 1500
+    # DistributedRateLimiter window ids: `repaired` = integer nanoseconds (fixes/C10-drl-window-float-floor.diff),
+    # `current` = the float floor division of the unrepaired code, evaluated by the glue (drl_float_wid)
+    variants = ["repaired", "current"]
+    # off-grid DistributedRateLimiter cases (window 0.1 s, 0.3 s, 0.7 s …, arrivals on window boundaries) are
+    # generated only when this is True: on a tree without fixes/C10-drl-window-float-floor.diff they violate
+    # "at most N per aligned window" (corpus/C10/drl-window-float-floor.json is the witness).  Make it True once
+    # the patch is in /repo (until then: HV_C10_DRL_OFFGRID=1 ./check C10).
+    DRL_OFFGRID = os.environ.get("HV_C10_DRL_OFFGRID", "1") == "1"
     thorough_cases = 60000
     case_timeout_s = 60
     rule = ("family policy-exact (≈7/12): one of the five policies with parameters on the float-exact grid, ≤60 "
@@ -156,7 +183,8 @@ class C10(core.Property):
             "parameters — window sizes / rates written as decimals with 1–4 fractional digits, 60 % of them chosen so that truncating and "
             "rounding x·1e9 differ by 1 ns (1.001 s, 1.017 s, 33.3/s) — and 2–6 rounds of: take everything granted at one instant, then arrive "
             "exactly at t + time_until_available(t) again and again (drain) or ask and try at once; family entity (≈1/6): "
-            "RateLimitedEntity or NullRateLimiter inside a real Simulation, ≤25 requests, queue capacity 0–3 or large; one third of "
+            "RateLimitedEntity or NullRateLimiter inside a real Simulation, ≤25 requests, queue capacity 0 (1/4), 1, 2, 3, 1000 or "
+            "unbounded (float inf), the public queue_depth recorded after every delivery; one third of "
             "that slot is the Inductor (bursts at one instant / 1 ns apart, arrivals around the smoothed interval, sub-nanosecond "
             "smoothed intervals, tau 1 ms–10 s) and one sixth 1–3 DistributedRateLimiter instances over one KVStore (grid windows "
             "and latencies, arrivals on window boundaries, half sequential, half overlapping); 1/12 of all cases are adaptive "
@@ -186,9 +214,13 @@ class C10(core.Property):
         "Inductor: the EWMA gate (_can_forward, smoothed interval; floats through math.exp) is an oracle read off the "
         "run — its decisions and poll waits are not predicted, the control flow around it (forward / queue / drop / "
         "poll, 1 ns guard) is modelled and judged",
-        "DistributedRateLimiter: windows, store latencies and arrival times on the 2^-9 s grid (window id = floor of "
-        "float seconds elsewhere); the per-window limit is judged on runs whose requests do not overlap (the "
-        "read-modify-write on the shared counter loses updates when they do — by design, says the code)",
+        "DistributedRateLimiter: the per-aligned-window limit is judged on runs whose requests do not overlap (the "
+        "read-modify-write on the shared counter loses updates when they do — by design, says the code); window ids: "
+        "variant `repaired` = integer nanoseconds, variant `current` = the float floor division of the unrepaired code "
+        "(fixes/C10-drl-window-float-floor); generated cases stay on the 2^-9 s grid, where both agree, unless "
+        "C10.DRL_OFFGRID / HV_C10_DRL_OFFGRID=1",
+        "queue capacity 'inf' = FIFOQueue's own default float('inf') (the constructors take no None); the model runs it "
+        "with a capacity the run cannot reach (entity_unbounded_never_drops)",
     ]
     partial_theorems = {
         "HappyModel.C10.adaptive_credit_bound": "the property's adaptive clause (bucket bound of the CURRENT rate, epoch by epoch, "
@@ -506,7 +538,7 @@ class C10(core.Property):
             t += dt
             reqs.append(t)
         end = t + rng.choice([0, B * G, 3 * B * G, 40 * B * G, 40 * B * G, 400 * B * G])
-        return {"family": "entity", "policy": spec, "qcap": rng.choice([0, 1, 1, 2, 3, 1000]),
+        return {"family": "entity", "policy": spec, "qcap": rng.choice([0, 0, 1, 1, 2, 3, 1000, "inf"]),
                 "reqs": reqs, "end": end, "inject": rng.choice(["pre", "handler"])}
 
     def gen_inductor(self, rng, tier):
@@ -537,7 +569,7 @@ class C10(core.Property):
             reqs.append(t)
         end = t + rng.choice([0, base, 3 * base, 40 * base, 40 * base, 400 * base])
         return {"family": "entity", "policy": {"kind": "ind", "tau": rng.choice([0.001, 0.1, 1.0, 1.0, 10.0])},
-                "qcap": rng.choice([0, 1, 1, 2, 3, 1000]), "reqs": reqs, "end": end,
+                "qcap": rng.choice([0, 0, 1, 1, 2, 3, 1000, "inf"]), "reqs": reqs, "end": end,
                 "inject": rng.choice(["pre", "handler"])}
 
     def gen_drl(self, rng, tier):
@@ -548,6 +580,11 @@ class C10(core.Property):
         the per-window limit is judged), the others overlap them (lost updates are by design; exactly-once,
         order and counters are judged)."""
         W = rng.choice([8, 64, 100, 512])                # window, grid steps
+        unit = G
+        if self.DRL_OFFGRID and rng.random() < 0.4:
+            # decimal windows (0.1 s, 0.3 s, 0.7 s, 1.1 s) in milliseconds: `t // window` in doubles is off by one
+            # on many window boundaries; the boundary-biased arrival times below land on them
+            W, unit = rng.choice([100, 100, 300, 700, 1100, 10]), 10**6
         N = rng.choice([1, 1, 2, 3, 5])
         k = rng.choice([1, 1, 2, 3])
         rl, wl = rng.choice([0, 1, 1, 2, 5]), rng.choice([0, 1, 1, 3, 5])
@@ -568,9 +605,12 @@ class C10(core.Property):
             if sequential:
                 dt = max(dt, rl + wl + 1)
             t += dt
-            reqs.append([rng.randrange(k), t * G])
-        return {"family": "drl", "window": W, "limit": N, "ninst": k, "rlat": rl, "wlat": wl, "reqs": reqs,
-                "end": (t + rng.choice([0, rl, rl + wl, 10 * W])) * G, "policy": {"kind": "drl"}}
+            reqs.append([rng.randrange(k), t * unit])
+        case = {"family": "drl", "window": W, "limit": N, "ninst": k, "rlat": rl, "wlat": wl, "reqs": reqs,
+                "end": (t + rng.choice([0, rl, rl + wl, 10 * W])) * unit, "policy": {"kind": "drl"}}
+        if unit != G:
+            case["unit"] = unit
+        return case
 
     # ------------------------------------------------------------------ implementation
     def run_impl(self, case):
@@ -595,9 +635,10 @@ class C10(core.Property):
                 return []
 
         sink = Sink("sink")
-        store = KVStore(name="store", read_latency=case["rlat"] * G / NS, write_latency=case["wlat"] * G / NS)
+        U = drl_unit(case)
+        store = KVStore(name="store", read_latency=case["rlat"] * U / NS, write_latency=case["wlat"] * U / NS)
         lims = [DistributedRateLimiter(f"lim{i}", sink, store, global_limit=case["limit"],
-                                       window_size=case["window"] * G / NS) for i in range(case["ninst"])]
+                                       window_size=case["window"] * U / NS) for i in range(case["ninst"])]
         budget = {"n": 0}
 
         def letter(a, b):
@@ -704,6 +745,8 @@ class C10(core.Property):
 
         spec = case["policy"]
         log, sink_log, emitted = [], [], []
+        # "inf": the queue's own default (FIFOQueue(capacity=float("inf"))) — an unbounded buffer
+        qcap = float("inf") if case["qcap"] == "inf" else case["qcap"]
 
         class Sink(Entity):
             def handle_event(self, event):
@@ -714,11 +757,12 @@ class C10(core.Property):
         if spec["kind"] == "null":
             lim = NullRateLimiter("lim", sink)
         elif spec["kind"] == "ind":
-            lim = Inductor("lim", sink, time_constant=spec["tau"], queue_capacity=case["qcap"])
+            lim = Inductor("lim", sink, time_constant=spec["tau"], queue_capacity=qcap)
         else:
-            lim = RateLimitedEntity("lim", sink, make_policy(spec), queue_capacity=case["qcap"])
+            lim = RateLimitedEntity("lim", sink, make_policy(spec), queue_capacity=qcap)
         is_null = spec["kind"] == "null"
         orig = lim.handle_event
+        depth = (lambda: 0) if is_null else (lambda: lim.queue_depth)
         counts = {"n": 0, "recv": 0, "fwd": 0}
 
         def stats():
@@ -747,10 +791,10 @@ class C10(core.Property):
                     emitted.append((fid, e.time.nanoseconds))
             t = event.time.nanoseconds
             if event.target is lim and event.event_type.startswith(("rate_limit_poll::", "inductor_poll::")):
-                log.append(f"poll {t} {fid} {poll}")
+                log.append(f"poll {t} {fid} {poll} {depth()}")
             else:
                 counts["recv"] += 1
-                log.append(f"req {event.context.get('rid')} {t} {fid} {q1 - q0} {d1 - d0} {poll}")
+                log.append(f"req {event.context.get('rid')} {t} {fid} {q1 - q0} {d1 - d0} {poll} {depth()}")
             return res
 
         lim.handle_event = tapped
@@ -791,7 +835,9 @@ class C10(core.Property):
         if case["family"] == "drl":
             # the order in which the engine ran the generators' segments comes from the real run (GUIDE rule 8)
             segs = [" ".join(l.split()[:4]) for l in self._impl_cached(case) if l.startswith(("arr ", "res "))]
-            return (f"drl {case['window'] * G} {case['limit']} {case['ninst']}", segs)
+            if variant == "current":
+                segs = [f"{l} {drl_float_wid(case, int(l.split()[3]))}" if l.startswith("arr ") else l for l in segs]
+            return (f"drl {variant} {drl_window_ns(case)} {case['limit']} {case['ninst']}", segs)
         cfg = " ".join(map(str, cfg_tokens(spec)))
         if case["family"] == "entity":
             # the delivery schedule comes from the real engine (GUIDE rule 8)
@@ -804,7 +850,8 @@ class C10(core.Property):
                     sched.append(f"req {t[1]} {t[2]} {t[6]}")
                 elif t[0] == "poll":
                     sched.append(f"poll {t[1]} {t[3]}")
-            return (f"entity {case['qcap']} {cfg}", sched)
+            # unbounded = a capacity the run cannot reach (entity_unbounded_never_drops)
+            return (f"entity {10**18 if case['qcap'] == 'inf' else case['qcap']} {cfg}", sched)
         if case["mode"] == "tol":
             hints = self._impl_cached(case)
             body = []
@@ -826,7 +873,7 @@ class C10(core.Property):
         if not impl_out or impl_out[0].startswith("IMPL-"):
             return None
         if case["family"] == "drl":
-            return (f"judge-drl {case['window'] * G} {case['limit']} {case['ninst']}", list(impl_out))
+            return (f"judge-drl {drl_window_ns(case)} {case['limit']} {case['ninst']}", list(impl_out))
         cfg = " ".join(map(str, cfg_tokens(case["policy"])))
         if case["family"] == "entity":
             if case["policy"]["kind"] == "ind":
@@ -881,7 +928,7 @@ class C10(core.Property):
                 elif k < 0.7:
                     xs[i][0] = rng.randrange(c["ninst"])
                 else:
-                    d = rng.choice([-2, -1, 1, 2]) * G
+                    d = rng.choice([-2, -1, 1, 2]) * drl_unit(c)
                     for j in range(i, len(xs)):
                         xs[j][1] = max(0, xs[j][1] + d)
                 c["reqs"] = sorted(xs, key=lambda r: r[1])
@@ -959,6 +1006,10 @@ THEOREMS = [
     "HappyModel.C10.drl_exactly_once",
     "HappyModel.C10.drl_exactly_once_spec",
     "HappyModel.C10.drl_sequential_window_bound",
+    "HappyModel.C10.drl_aligned_window_repaired",
+    "HappyModel.C10.drl_aligned_window_current_false",
+    "HappyModel.C10.entity_capacity_respected",
+    "HappyModel.C10.entity_unbounded_never_drops",
 ]
 C10.theorems = THEOREMS
 PROPERTY = C10()
